@@ -8,7 +8,8 @@ nothing behind.
 `rest.length + k ≤ n`; it is neither `oob` nor `fuel`.
 `G k F p`  : on every input `ws` with `ws.length < F`, `Bd k (p.run ws) ws.length`.
 -/
-namespace Pybes3Verif.Raw
+namespace Pybes3Verif.Raw.Safe
+open Pybes3Verif.Raw
 
 /-- outcome is an error or a success that left at most `n - k` words; neither `oob` nor `fuel` -/
 def Bd {α : Type} (k : Nat) (r : Res α) (n : Nat) : Prop :=
@@ -263,4 +264,4 @@ theorem readEvents_ok_nil (sel : List Nat) :
 theorem parse_Bd (sel ws : List Nat) : Bd 0 (parse sel ws) ws.length :=
   G_readEvents (effectiveSel sel) (ws.length + 1) ws (Nat.lt_succ_self _)
 
-end Pybes3Verif.Raw
+end Pybes3Verif.Raw.Safe
